@@ -121,7 +121,7 @@ std::string propPeriodic(const FmmCase& c, const std::string& prop){
     // model self-check: the real periodic tree alone (levels >= 1 + neighbours) covers exactly the images [-1,1]^Dim
     {
         const Coord T = mtg.leaves.begin()->first;
-        gf::Val viaLists = ex.local(H - 1, T, 1);
+        gf::Val viaLists = ex.farAtLeaf(T, 1);
         gf::addPlain(viaLists, ex.nearField(T, -1, true));
         const gf::Val direct = ex.allImages(T, -1, 1, -1);
         if(viaLists != direct) return "MODEL-ERROR periodic partition identity violated by the reference model";
